@@ -70,14 +70,16 @@ def rand_design(rng, profile='small', nops=None, nin=None, ops=None, nregs=None,
     if not consts:
         ops = [o for o in ops if o not in ('const', 'constop')]
 
-    reserved = ['always', 'wire', 'reg', 'module', 'begin', 'end', 'signed', 'output', 'input', 'assign', 'integer', 'xor']
+    reserved = ['always', 'wire', 'reg', 'module', 'begin', 'end', 'signed', 'output', 'input', 'assign', 'integer', 'xor',
+                'real', 'unsigned', 'library', 'cmos', 'rcmos', 'pull1', 'supply1', 'endtask', 'ifnone', 'scalared', 'time',
+                'noshowcancelled', 'pulsestyle_onevent', 'pulsestyle_ondetect', 'wor', 'tri', 'nand', 'and', 'not']
     used_names = set()
 
     def nm(base):
         if name_style == 'plain' or rng.random() < 0.6:
             return base
-        k = rng.randrange(12 if name_style == 'verilog' else 15)
-        cand = [base + ' x', base + '[0]', '9' + base, None, base + '$', '$' + base, 'L' * 1025 + base,
+        k = rng.randrange(12 if name_style in ('verilog', 'verilog-nospace') else 15)
+        cand = [base + (' x' if name_style != 'verilog-nospace' else '~x'), base + '[0]', '9' + base, None, base + '$', '$' + base, 'L' * 1025 + base,
                 '\u00e9' + base, base + '.q', base + '-1', base + '__', 'Tmp' + base,
                 '_ver_out_tmp_%d' % rng.randrange(3), 'tb_iter', 'block'][k]
         if cand is None:
@@ -282,6 +284,17 @@ def rand_design(rng, profile='small', nops=None, nin=None, ops=None, nregs=None,
             d.ops_used.append('rawreg')
         else:
             r.next <<= src
+    if twins:
+        # twin registers: same next-input wire, different reset values (must never be merged)
+        for rnet in [n for n in working_block().logic if n.op == 'r']:
+            if rng.random() < 0.4:
+                r0 = rnet.dests[0]
+                others = [v for v in (0, 1, (1 << len(r0)) - 1, rng.getrandbits(len(r0))) if v != (r0.reset_value or 0)]
+                r2 = Register(len(r0), reset_value=rng.choice(others))
+                working_block().add_net(LogicNet('r', None, rnet.args, (r2,)))
+                d.regs.append(r2)
+                pool.append(r2)
+                d.ops_used.append('twinreg')
     for m in d.mems:
         for _p in range(rng.choice([1, 1, 2, 3])):
             wa, wd, we = pick(), pick(), pick()
